@@ -1,5 +1,7 @@
 import NavisModel.Proofs.AffineLemmas
 import NavisModel.Proofs.BridgeLemmas
+import NavisModel.Proofs.TpsLemmas
+import NavisModel.Gen.Bridge
 /-!
 # C08 — transforms, sequences and bridging paths map points as defined
 
@@ -11,13 +13,25 @@ Property theorems only; helper lemmas live in `Proofs/AffineLemmas.lean` and
 * bridging: **telescoping** — if every registration is the change of frame between its two templates
   then every chain of edges of the bridging graph (forward or inverted, any parallel edge, any path,
   in particular the one navis picks) composes to `frame target ∘ (frame source)⁻¹`;
-* `via` / `avoid`: the logic AS WRITTEN accepts a path lacking `via` (witness), the repaired logic
-  honours both; `NetworkXNoPath` is only raised when no admissible path exists (with the
-  enumerator proved sound AND complete);
-* the `lru_cache` of `bridging_graph` is always coherent with the registered transforms.
+* `via` / `avoid`: the loop body of the CURRENT source (re-extracted into `Gen/Bridge.lean` on every
+  run) is proved equal to "all `via`, no `avoid`" (`source_decision_is_repaired`), hence honours both;
+  an error is raised EXACTLY when no admissible path exists (`no_path_error_iff`, with the enumerator
+  proved sound AND complete).  The loop body as it was written before the repair `0eaf94d`
+  (`acceptAsWritten`, HISTORICAL) accepts a path lacking `via` (witness);
+* the `lru_cache` of `bridging_graph` is always coherent with the registered transforms;
+* the source facts the models hard-wire (graph edges and weights, append condition, cache clearing,
+  which classes are invertible, `TransformSequence.__neg__` / working copy / NaN mask, `TPStransform`
+  negation and coefficient cache) are what the current source says (`source_*` theorems);
+* merging of appendable members keeps the composition; sequences of sequences flatten; a registered
+  sequence is marked invertible exactly when `-sequence` is defined (all members invertible);
+* thin plate splines: coefficients solving the TPS system (exactly / up to ε) make the spline map every
+  source landmark onto its target (exactly / up to ε), for every kernel; the coefficient cache under
+  `copy()` / `__neg__` always serves the coefficients of the object's own landmarks.
 
-Thin-plate-spline and moving-least-squares numerics are external (morphops / molesq): "landmarks map
-to landmarks" is tested by the harness, not proved.
+`np.linalg.solve` (inside morphops) and the moving-least-squares numerics (molesq) are external: the
+driver evaluates the residual of navis' own coefficients in `Rat`; MLS landmark interpolation is tested
+by the harness with a tolerance, not proved (it is approximate by construction: molesq adds an epsilon
+to every squared distance).
 -/
 namespace Navis.Props.C08
 open Navis.Affine Navis.Bridge
@@ -250,7 +264,7 @@ theorem path_honours_via_avoid {τ} (G : List (GEdge τ)) (s t : Nat) (via avoid
     rw [checkPath_iff]
     exact ⟨henum p hm, (acceptRepaired_iff via avoid p).mp ha⟩
 
-/-- **The logic as written does not**: a registry (`0→3→2`, `0→1→2`, `2→4`) and the query
+/-- HISTORICAL — **the logic as written before the repair `0eaf94d` does not**: a registry (`0→3→2`, `0→1→2`, `2→4`) and the query
 `0 → 2 via 1 avoid 4` for which it returns the path `0,3,2` that lacks `via`, although the
 admissible path `0,1,2` exists (DESIGN §6 #9; reproduced on the real code by the harness). -/
 def exG : List (GEdge Unit) :=
@@ -263,8 +277,8 @@ theorem asWritten_violates_via :
       checkPath G s t via avoid p = false ∧ admissible G s t via avoid ≠ [] :=
   ⟨exG, 0, 2, [1], [4], [0, 3, 2], by decide +kernel, by decide +kernel, by decide +kernel⟩
 
-/-- With only `via` or only `avoid` the code as written agrees with the property; with both it
-ignores `via` altogether. -/
+/-- HISTORICAL: with only `via` or only `avoid` the code as written before the repair agrees with the
+property; with both it ignores `via` altogether. -/
 theorem asWritten_single_ok (l p : List Nat) (h : l ≠ []) :
     acceptAsWritten l [] p = acceptRepaired l [] p ∧ acceptAsWritten [] l p = acceptRepaired [] l p :=
   ⟨asWritten_eq_repaired_no_avoid l p h, asWritten_eq_repaired_no_via l p h⟩
@@ -337,6 +351,342 @@ example : findPath acceptRepaired exG 0 2 [1] [1] none (simplePaths exG 0 2) = .
   decide +kernel
 example : findPath acceptRepaired exG 4 0 [] [3] none (simplePaths exG 4 0) = .error .noPath := by
   decide +kernel
+
+/-! ## The CURRENT source (facts re-extracted by `translator/gen_bridge.py` on every run) -/
+
+/-- **The loop body of `find_bridging_path` in the current source is the repaired logic.**
+`Gen.Bridge.acceptTree` is the Boolean function read off the `if`/`elif` tree of the loop; whenever
+the loop runs (`via` or `avoid` given) it accepts exactly the paths holding all `via` and no
+`avoid`.  Any logically equivalent rewrite of the source keeps this theorem; the historical
+`elif avoid and …` does not. -/
+theorem source_decision_is_repaired (via avoid p : List Nat) (hne : via ≠ [] ∨ avoid ≠ []) :
+    acceptOf Gen.Bridge.acceptTree via avoid p = acceptRepaired via avoid p :=
+  acceptOf_eq_repaired _ (by decide) via avoid p hne
+
+/-- The guard of the `nx.shortest_path` short cut is "neither `via` nor `avoid`", every accepted path
+ends the loop, both arguments are normalised with `make_iterable` (a single name is one name),
+`xform_brain` forwards `via` and `avoid`, and an error is raised when no path was accepted. -/
+theorem source_find_facts :
+    (∀ v a, Gen.Bridge.shortcutTree v a = (!v && !a)) ∧ Gen.Bridge.acceptBreaks = true
+    ∧ Gen.Bridge.viaNormalised = true ∧ Gen.Bridge.avoidNormalised = true
+    ∧ Gen.Bridge.raisesWhenNotGood = true
+    ∧ Gen.Bridge.brainArgs = ["source", "target", "avoid=avoid", "via=via"]
+    ∧ Gen.Bridge.enumArgs = ["source", "target"] ∧ "source" ∈ Gen.Bridge.shortestArgs ∧ "target" ∈ Gen.Bridge.shortestArgs :=
+  ⟨by decide, rfl, rfl, rfl, rfl, rfl, rfl, by decide, by decide⟩
+
+/-- `find_bridging_path` of the current source (short-cut guard and loop body as extracted) is the
+repaired model, for every graph, query, `shortest_path` answer and enumeration. -/
+theorem source_find_is_repaired {τ} (G : List (GEdge τ)) (s t : Nat) (via avoid : List Nat)
+    (sh : Option (List Nat)) (enum : List (List Nat)) :
+    findPathG Gen.Bridge.shortcutTree (acceptOf Gen.Bridge.acceptTree) G s t via avoid sh enum
+      = findPath acceptRepaired G s t via avoid sh enum :=
+  findPathG_eq _ _ _ source_find_facts.1 source_decision_is_repaired G s t via avoid sh enum
+
+/-- … hence whatever it returns is a simple path from `s` to `t` through all `via` and clear of all
+`avoid`. -/
+theorem source_path_honours_via_avoid {τ} (G : List (GEdge τ)) (s t : Nat) (via avoid : List Nat)
+    (sh : Option (List Nat)) (enum : List (List Nat)) (p : List Nat)
+    (hsh : ∀ q, sh = some q → SimplePath G s t q) (henum : ∀ q ∈ enum, SimplePath G s t q)
+    (h : findPathG Gen.Bridge.shortcutTree (acceptOf Gen.Bridge.acceptTree) G s t via avoid sh enum = .ok p) :
+    checkPath G s t via avoid p = true := by
+  rw [source_find_is_repaired] at h
+  exact path_honours_via_avoid G s t via avoid sh enum p hsh henum h
+
+/-- **An error is raised exactly when no admissible path exists.**  For known templates (`G` has
+edges, `s`, `t` and every `via` are nodes; otherwise a `ValueError` names the unknown template), with
+`nx.shortest_path` assumed to return a simple path when one exists and to raise only when none does,
+and the search running over all simple paths: `find_bridging_path` fails iff no simple path from `s`
+to `t` holds all `via` and no `avoid`; the failure then is `NetworkXNoPath`. -/
+theorem no_path_error_iff {τ} (G : List (GEdge τ)) (s t : Nat) (via avoid : List Nat)
+    (sh : Option (List Nat)) (hG : G ≠ []) (hs : s ∈ nodes G) (ht : t ∈ nodes G)
+    (hv : ∀ v ∈ via, v ∈ nodes G)
+    (hsh1 : ∀ q, sh = some q → SimplePath G s t q) (hsh2 : sh = none → simplePaths G s t = []) :
+    ((∃ e, findPath acceptRepaired G s t via avoid sh (simplePaths G s t) = .error e) ↔
+      ∀ p, checkPath G s t via avoid p = false) ∧
+    (∀ e, findPath acceptRepaired G s t via avoid sh (simplePaths G s t) = .error e →
+      e = .noPath ∨ e = .noGood) := by
+  have hkind : ∀ e, findPath acceptRepaired G s t via avoid sh (simplePaths G s t) = .error e →
+      e = .noPath ∨ e = .noGood := by
+    intro e he
+    unfold findPath at he
+    split at he
+    · rename_i h0; exact absurd (List.isEmpty_iff.mp h0) hG
+    split at he
+    · rename_i h0; simp [hs] at h0
+    split at he
+    · rename_i h0; simp [ht] at h0
+    split at he
+    · rename_i h0
+      simp only [List.any_eq_true, Bool.not_eq_true', List.contains_eq_mem, decide_eq_false_iff_not] at h0
+      obtain ⟨v, hv1, hv2⟩ := h0
+      exact absurd (hv v hv1) hv2
+    split at he
+    · split at he
+      · cases he
+      · cases he; exact Or.inl rfl
+    · unfold searchLoop at he
+      split at he
+      · cases he; exact Or.inl rfl
+      · split at he
+        · cases he
+        · cases he; exact Or.inr rfl
+  refine ⟨⟨?_, ?_⟩, hkind⟩
+  · rintro ⟨e, he⟩
+    exact no_path_error_sound acceptRepaired (fun _ _ _ _ h => h) G s t via avoid sh e hsh2 (hkind e he) he
+  · intro hno
+    exact error_when_inadmissible G s t via avoid sh hsh1 hno
+
+/-- The same for the current source. -/
+theorem source_no_path_error_iff {τ} (G : List (GEdge τ)) (s t : Nat) (via avoid : List Nat)
+    (sh : Option (List Nat)) (hG : G ≠ []) (hs : s ∈ nodes G) (ht : t ∈ nodes G)
+    (hv : ∀ v ∈ via, v ∈ nodes G)
+    (hsh1 : ∀ q, sh = some q → SimplePath G s t q) (hsh2 : sh = none → simplePaths G s t = []) :
+    (∃ e, findPathG Gen.Bridge.shortcutTree (acceptOf Gen.Bridge.acceptTree) G s t via avoid sh
+        (simplePaths G s t) = .error e) ↔ ∀ p, checkPath G s t via avoid p = false := by
+  rw [source_find_is_repaired]
+  exact (no_path_error_iff G s t via avoid sh hG hs ht hv hsh1 hsh2).1
+
+/-- Non-vacuity: `exG` has edges, `0`, `2`, `1` are nodes; with `avoid = [1]` and `via = [1]` nothing
+is admissible and the source raises, with `avoid = [4]` it finds `0,1,2`. -/
+example : ∃ e, findPathG Gen.Bridge.shortcutTree (acceptOf Gen.Bridge.acceptTree) exG 0 2 [1] [1] none
+    (simplePaths exG 0 2) = .error e := ⟨.noGood, by decide +kernel⟩
+example : findPathG Gen.Bridge.shortcutTree (acceptOf Gen.Bridge.acceptTree) exG 0 2 [1] [4] none
+    (simplePaths exG 0 2) = .ok [0, 1, 2] := by decide +kernel
+
+/-- HISTORICAL: the loop body before the repair is the tree `asWrittenTree`, and that tree is NOT the
+one the current source has (so the witness `asWritten_violates_via` is about old code). -/
+theorem asWritten_is_historical :
+    (∀ via avoid p, acceptAsWritten via avoid p = acceptOf asWrittenTree via avoid p) ∧
+    asWrittenTree true false true false ≠ Gen.Bridge.acceptTree true false true false :=
+  ⟨acceptAsWritten_eq_acceptOf, by decide⟩
+
+/-- **`bridging_graph` of the current source is the model graph**: the forward weight is the
+registration's weight, the reverse weight is `weight * reciprocal` (numbers; `True` is a number) and
+`weight` for any other truthy value; forward edges run over the `type == 'bridging'` records from
+source to target with the transform itself, reverse edges over the INVERTIBLE bridging records from
+target to source with the NEGATED transform, only under `if reciprocal:`. -/
+theorem source_graph_is_model {τ} (neg : τ → τ) (regs : List (Reg τ)) (recip : Option Rat) :
+    bridgingGraphOf Gen.Bridge.fwdWeight Gen.Bridge.revNumberWeight neg regs recip = bridgingGraph neg regs recip :=
+  bridgingGraphOf_eq _ _ (fun _ => rfl) (fun _ _ => rfl) neg regs recip
+
+theorem source_graph_facts :
+    Gen.Bridge.fwdOver = ["self.transforms", "t.type == 'bridging'"]
+    ∧ Gen.Bridge.fwdEnds = ["t.source", "t.target"] ∧ Gen.Bridge.fwdTransform = "t.transform"
+    ∧ Gen.Bridge.revGuard = "reciprocal"
+    ∧ Gen.Bridge.revNumberOver = ["self.transforms", "t.invertible", "t.type == 'bridging'"]
+    ∧ Gen.Bridge.revNumberEnds = ["t.target", "t.source"] ∧ Gen.Bridge.revNumberTransform = "-t.transform"
+    ∧ Gen.Bridge.revOtherOver = ["self.transforms", "t.invertible", "t.type == 'bridging'"]
+    ∧ Gen.Bridge.revOtherEnds = ["t.target", "t.source"] ∧ Gen.Bridge.revOtherTransform = "-t.transform"
+    ∧ (∀ w k, Gen.Bridge.revOtherWeight w k = w) :=
+  ⟨rfl, rfl, rfl, rfl, rfl, rfl, rfl, rfl, rfl, rfl, fun _ _ => rfl⟩
+
+/-- **`register_transform` of the current source is the model's `register`**: the record is appended
+unless `skip_existing` and an equal record exists, and the caches are cleared unconditionally; every
+memoised method of the registry is among those `clear_caches` clears. -/
+theorem source_register_is_model {τ} [DecidableEq τ] (st : RegState τ) (r : Reg τ) (sk : Bool) :
+    registerOf Gen.Bridge.appendCond Gen.Bridge.registerClears st r sk = register st r sk :=
+  registerOf_eq _ (by decide) st r sk
+
+theorem source_caches_cleared :
+    (∀ c ∈ Gen.Bridge.cached, c ∈ Gen.Bridge.cleared) ∧ Gen.Bridge.registerClears = true
+    ∧ (Gen.Bridge.graphCached = true → "bridging_graph" ∈ Gen.Bridge.cleared) :=
+  ⟨by decide, rfl, by decide⟩
+
+/-- Which registrations get reverse edges.  The `invertible` flag `register_transform` computes in the
+current source is: for a plain transform "its class defines `__neg__`", for a `TransformSequence`
+"EVERY member's class defines `__neg__`" (not: the sequence class has `__neg__`, which is always
+true).  The classes that define `__neg__` are exactly these (`FunctionTransform` and
+`ElastixTransform` do not). -/
+theorem source_invertible_classes :
+    (∀ selfNeg allNeg, Gen.Bridge.invertibleOf false selfNeg allNeg = selfNeg)
+    ∧ (∀ selfNeg allNeg, Gen.Bridge.invertibleOf true selfNeg allNeg = allNeg)
+    ∧ (Gen.Bridge.negClasses.filter (·.2)).map (·.1)
+        = ["AffineTransform", "AliasTransform", "CMTKtransform", "H5JavaTransform", "H5transform",
+           "MovingLeastSquaresTransform", "TPStransform", "TransformSequence"]
+    ∧ (Gen.Bridge.negClasses.filter (!·.2)).map (·.1) = ["ElastixTransform", "FunctionTransform"] :=
+  ⟨by decide, by decide, by decide, by decide⟩
+
+/-- **A registered sequence is marked invertible exactly when `-sequence` is defined**, i.e. when
+every member can be negated; a plain transform exactly when its class defines `__neg__`.  Together
+with `graph_edges_exactly` (reverse edge ⇔ `invertible`): a sequence record has a reverse edge iff
+all its members are invertible, `bridging_graph` never evaluates an undefined `-transform`, and a
+non-invertible member removes that record's reverse edge only. -/
+theorem seq_record_invertible_iff_neg_defined {τ : Type} (neg? : τ → Option τ) (ts : List τ) (seqNeg : Bool) :
+    recordInvertible Gen.Bridge.invertibleOf seqNeg (.seq (ts.map fun t => (neg? t).isSome)) = true
+      ↔ (negSeq? neg? ts).isSome = true := by
+  rw [negSeq?_isSome_iff]
+  show (List.all (ts.map fun t => (neg? t).isSome) id) = true ↔ _
+  simp [List.all_eq_true]
+
+theorem plain_record_invertible (h seqNeg : Bool) :
+    recordInvertible Gen.Bridge.invertibleOf seqNeg (.plain h) = h := rfl
+
+/-- `-seq`, when defined, is the reversed list of negated members (the model's `negSeq`), hence the
+inverse (`seq_neg_is_inverse`). -/
+theorem seq_neg_defined_is_negSeq {τ : Type} (neg : τ → τ) (ts : List τ) :
+    negSeq? (fun t => some (neg t)) ts = some (negSeq neg ts) :=
+  negSeq?_eq_negSeq neg ts
+
+/-- Non-vacuity: members `[invertible, not invertible]` → no reverse edge; all invertible → one. -/
+example : recordInvertible Gen.Bridge.invertibleOf true (.seq [true, false]) = false := by decide
+example : recordInvertible Gen.Bridge.invertibleOf true (.seq [true, true]) = true := by decide
+example : recordInvertible Gen.Bridge.invertibleOf true (.seq []) = true := by decide
+
+/-- **`TransformSequence` of the current source**: `__neg__` negates the members in REVERSED order
+(the model's `negSeq`); `xform` works on a fresh float64 copy of its input, masks rows with
+`any(isnan, axis=1)` recomputed before every member, hands exactly the unmasked rows to each member of `self.transforms` in order,
+writes the result back into exactly those rows, and skips a member when every row is masked. -/
+theorem source_seq_neg_is_model {τ : Type} (neg : τ → τ) (ts : List τ) :
+    negSeqOf Gen.Bridge.seqNegReverses Gen.Bridge.seqNegNegates neg ts = negSeq neg ts :=
+  negSeqOf_eq neg ts
+
+/-- `TransformSequence.copy()` exists and rebuilds the sequence from copies of its members (so a
+sequence can be a member of / be registered and used through another sequence), `__init__` copies by
+default; `append` unpacks a sequence argument into its members, type-checks and tests every MEMBER
+(not the container) for `xform`, and tries to merge each member into the last one. -/
+theorem source_seq_nesting_facts :
+    Gen.Bridge.seqHasCopy = true ∧ Gen.Bridge.seqCopyCopiesMembers = true ∧ Gen.Bridge.seqInitCopyDefault = true
+    ∧ Gen.Bridge.appendUnpacksSeq = true ∧ Gen.Bridge.appendTestsMember = true
+    ∧ Gen.Bridge.appendIsinstanceOnMember = true ∧ Gen.Bridge.appendMergesIntoLast = true :=
+  ⟨rfl, rfl, rfl, rfl, rfl, rfl, rfl⟩
+
+theorem source_seq_xform_facts :
+    Gen.Bridge.xfFresh = true ∧ Gen.Bridge.xfDtype = "float64" ∧ Gen.Bridge.xfLoopOver = "self.transforms"
+    ∧ Gen.Bridge.nanMask = "np.any(np.isnan(XF), axis=1)" ∧ Gen.Bridge.maskPerMember = true
+    ∧ Gen.Bridge.writeTargets = ["XF[~MASK]"] ∧ Gen.Bridge.writeArgs = ["XF[~MASK]"]
+    ∧ Gen.Bridge.allNanSkip = ["all(MASK)"] :=
+  ⟨rfl, rfl, rfl, rfl, rfl, rfl, rfl, rfl⟩
+
+/-! ## Merging of appendable members -/
+
+/-- **`TransformSequence(*members)` equals the composition of the members in order**, however many
+members were merged into their predecessor by `append` (any group of transforms, any merge function
+whose success means "is now the composition"). -/
+theorem seq_build_is_composition {τ} (g : TGroup τ) (merge : τ → τ → Option τ)
+    (hm : MergeSound g merge) (ts : List τ) :
+    prod g (seqBuild merge ts) = prod g ts :=
+  prod_seqBuild g merge hm ts
+
+/-- **Sequences of sequences flatten**: `TransformSequence(*items)` with transforms, sequences and
+lists mixed composes to the flattened list of members in order (merging still applies). -/
+theorem seq_nested_is_flat_composition {τ} (g : TGroup τ) (merge : τ → τ → Option τ)
+    (hm : MergeSound g merge) (items : List (Item τ)) :
+    prod g (seqBuildItems merge items) = prod g (items.flatMap Item.members) :=
+  prod_seqBuildItems g merge hm items
+
+/-- `seq.copy()` (= `TransformSequence(*seq.transforms)`) composes to the same transform as `seq`. -/
+theorem seq_copy_same_composition {τ} (g : TGroup τ) (merge : τ → τ → Option τ)
+    (hm : MergeSound g merge) (ts : List τ) :
+    prod g (seqBuild merge (seqBuild merge ts)) = prod g (seqBuild merge ts) :=
+  prod_seqBuild g merge hm _
+
+/-- … row by row for affine members. -/
+theorem seq_build_affine_rows (merge : InvAff → InvAff → Option InvAff) (hm : MergeSound affGroup merge)
+    (ts : List InvAff) (rows : List (Option Pt)) :
+    seqXform ((seqBuild merge ts).map fun T => liftRow fun q => some (xform T.1 q)) rows
+      = seqXform (ts.map fun T => liftRow fun q => some (xform T.1 q)) rows := by
+  rw [seq_affine_is_product, seq_affine_is_product, seq_build_is_composition affGroup merge hm]
+
+/-- Non-vacuity: merging everything (`merge a b = some (a·b)`) gives one member, merging nothing keeps
+the list; both are sound. -/
+example : MergeSound affGroup (fun a b => some (affGroup.mul a b)) := fun _ _ _ h => by cases h; rfl
+example : MergeSound affGroup (fun _ _ => none) := fun _ _ _ h => by cases h
+example : (seqBuild (fun a b => some (affGroup.mul a b)) [exS, exR, exS]).length = 1 := by decide +kernel
+example : (seqBuild (fun (_ _ : InvAff) => none) [exS, exR, exS]).length = 3 := by decide +kernel
+
+/-! ## Thin plate splines -/
+section TPS
+open Navis.Tps
+
+/-- **Coefficients that solve the TPS system make the spline interpolate.**  For EVERY kernel: if
+`(W, A)` satisfy the top block `K·W + P·A = Y` of the system `morphops.tps_coefs` solves, with `K` the
+kernel matrix of the source landmarks, then `TPStransform.xform` (as written: `P@A + U@W`, `U` the
+kernel between the points and the SOURCE landmarks) sends the `i`-th source landmark exactly to the
+`i`-th target landmark. -/
+theorem tps_interpolates (kern : Tps.Pt → Tps.Pt → Rat) (src tgt W : List Tps.Pt) (A : AffCoef)
+    (h : Solves (kernelMatrix kern src) src tgt W A) :
+    src.map (eval kern src W A) = tgt := by
+  rw [← systemTop_kernelMatrix]; exact h.1
+
+theorem tps_landmark_to_landmark (kern : Tps.Pt → Tps.Pt → Rat) (src tgt W : List Tps.Pt) (A : AffCoef)
+    (h : Solves (kernelMatrix kern src) src tgt W A) (i : Nat) (s : Tps.Pt) (hs : src[i]? = some s) :
+    tgt[i]? = some (eval kern src W A s) := by
+  rw [← tps_interpolates kern src tgt W A h, List.getElem?_map, hs]; rfl
+
+/-- **Checker soundness (what the driver evaluates on navis' own coefficients).**  If the residual
+of the system is at most `ε` per coordinate then every source landmark is mapped to within `ε` of its
+target, and there are as many targets as sources. -/
+theorem tps_check_sound (eps : Rat) (kern : Tps.Pt → Tps.Pt → Rat) (src tgt W : List Tps.Pt) (A : AffCoef)
+    (h : solvesB eps (kernelMatrix kern src) src tgt W A = true) :
+    src.length = tgt.length ∧
+    ∀ (i : Nat) s y, src[i]? = some s → tgt[i]? = some y → close eps (eval kern src W A s) y = true := by
+  simp only [solvesB, Bool.and_eq_true] at h
+  obtain ⟨hl, hc⟩ := closeAll_getElem? h.1
+  rw [systemTop_kernelMatrix] at hl hc
+  refine ⟨by simpa using hl, ?_⟩
+  intro i s y hs hy
+  exact hc i _ y (by rw [List.getElem?_map, hs]; rfl) hy
+
+/-- The exact system passes the checker for every tolerance `ε ≥ 0` (the checker is not vacuous). -/
+theorem tps_check_complete (eps : Rat) (he : 0 ≤ eps) (K : List (List Rat)) (src tgt W : List Tps.Pt) (A : AffCoef)
+    (h : Solves K src tgt W A) : solvesB eps K src tgt W A = true := by
+  have refl : ∀ l : List Tps.Pt, closeAll eps l l = true := by
+    intro l
+    induction l with
+    | nil => rfl
+    | cons p l ih => simp only [closeAll, Bool.and_eq_true]; exact ⟨close_refl_of_eq rfl he, ih⟩
+  simp only [solvesB, Bool.and_eq_true]
+  exact ⟨by rw [h.1]; exact refl _, by rw [h.2]; exact refl _⟩
+
+/-- **Negation maps back**: `-T` is the spline of the swapped landmark sets, so coefficients solving
+THAT system send every target landmark to its source landmark (`tps_interpolates` with the roles
+swapped; stated for the model's `neg` with the flags of the current source). -/
+theorem tps_neg_interpolates {γ} (kern : Tps.Pt → Tps.Pt → Rat) (lm : Nat → List Tps.Pt) (o : Obj γ)
+    (W : List Tps.Pt) (A : AffCoef)
+    (h : Solves (kernelMatrix kern (lm o.tgt)) (lm o.tgt) (lm o.src) W A) :
+    let n := Tps.neg Gen.Bridge.tpsNegSwaps Gen.Bridge.tpsNegFresh o
+    (lm n.src).map (eval kern (lm n.src) W A) = lm n.tgt ∧ n.cache = none :=
+  ⟨tps_interpolates kern (lm o.tgt) (lm o.src) W A h, rfl⟩
+
+/-- **The coefficient cache never serves coefficients of other landmarks.**  For every history of
+constructions, uses (`xform`, `.W`, `.A`), `copy()` and `__neg__` over a pool of transforms — with
+`__neg__`, `copy` as the CURRENT source has them — every use observes the coefficients of the used
+object's own (source, target) pair, `-o` being the pair swapped. -/
+theorem tps_cache_serves_own_landmarks {γ} (coefs : Nat → Nat → γ) (ops : List Tps.Op) :
+    (Tps.run Gen.Bridge.tpsNegSwaps Gen.Bridge.tpsNegFresh Gen.Bridge.tpsCopyCarries coefs [] ops).1
+      = Tps.runRef coefs [] ops :=
+  run_eq_runRef coefs Gen.Bridge.tpsCopyCarries [] (fun _ h => by cases h) ops
+
+/-- … and a `__neg__` that keeps the cache (built from `copy()`, seeded change C08_1) does not:
+use, negate, use observes the coefficients of the UN-swapped pair. -/
+theorem tps_neg_keeping_cache_is_wrong :
+    (Tps.run (γ := Nat × Nat) true false true (fun s t => (s, t)) [] [.mk 0 1, .use 0, .neg 0, .use 1]).1
+      ≠ Tps.runRef (fun s t => (s, t)) [] [.mk 0 1, .use 0, .neg 0, .use 1] := by decide
+
+/-- Source facts of `TPStransform` / `MovingLeastSquaresTransform` the model hard-wires: the
+constructor starts without coefficients, they are computed from `(source, target)` in this order,
+the kernel is taken between the points and the SOURCE landmarks, the result is `P@A + U@W`; the MLS
+negation flips `reverse` and `xform` passes it on. -/
+theorem source_tps_facts :
+    Gen.Bridge.tpsNegSwaps = true ∧ Gen.Bridge.tpsNegFresh = true ∧ Gen.Bridge.tpsInitEmpty = true
+    ∧ Gen.Bridge.tpsCoefArgs = ["self.source", "self.target"]
+    ∧ Gen.Bridge.tpsKernelArgs = ["points", "self.source"]
+    ∧ Gen.Bridge.tpsEvalTerms = ["P @ self.A", "U @ self.W"]
+    ∧ Gen.Bridge.mlsNegFlips = true ∧ Gen.Bridge.mlsPassesReverse = true :=
+  ⟨rfl, rfl, rfl, rfl, rfl, rfl, rfl, rfl⟩
+
+/-- Non-vacuity: one landmark pair on a line, kernel `|x − x'|`-like table: the affine spline
+`p ↦ p + (1,0,0)` solves the system with `W = 0` and interpolates. -/
+def exSrc : List Tps.Pt := [(0, 0, 0), (1, 0, 0), (0, 1, 0), (0, 0, 1)]
+def exTgt : List Tps.Pt := [(1, 0, 0), (2, 0, 0), (1, 1, 0), (1, 0, 1)]
+def exKern (p q : Tps.Pt) : Rat := absR (p.1 - q.1) + absR (p.2.1 - q.2.1) + absR (p.2.2 - q.2.2)
+def exA : AffCoef := ⟨(1, 0, 0), (1, 0, 0), (0, 1, 0), (0, 0, 1)⟩
+example : Solves (kernelMatrix exKern exSrc) exSrc exTgt [Tps.zero, Tps.zero, Tps.zero, Tps.zero] exA :=
+  ⟨by decide +kernel, by decide +kernel⟩
+example : solvesB (1 / 1000) (kernelMatrix exKern exSrc) exSrc exTgt [Tps.zero, Tps.zero, Tps.zero, Tps.zero] exA = true := by
+  decide +kernel
+
+end TPS
 
 /-! ## Registration and the memoised graph -/
 
